@@ -36,6 +36,24 @@ CLAIMED = {
          "handler; TLC checks equal items, handler calls = rejected frames (family, order) on recipe streams, RAISE delivers the items "
          "before the first rejection and raises the same exception (type and args).",
          "3.8, 4/C12", "TLC self-composition lemma + TLC trace validation over error policies"),
+ "C02": ("TLC checks on every payload definition of the working tree x repeat count x bitfield view that the generating and the parsing "
+         "formulation of the walk (spec/UbxWalk.tla) agree and emits every layout; the harness fills each with boundary/random values, "
+         "parses with the real code and TLC recomputes identity, attribute names, order and the bytes/bits every attribute denotes "
+         "from the payload alone and compares (numeric decoding judged by an exact-rational projection).",
+         "3.5, 4/C02", "TLA+ payload-walk spec; TLC-generated layouts replayed into the parser; TLC trace validation of projected attributes"),
+ "C08": ("For every definition (TLC layouts) frames of every payload length 0..nominal+3 and arbitrary strings are parsed and inspected, "
+         "streams are read under all configurations with a call-bounded recording stream and a SIGALRM watchdog; TLC judges each event "
+         "(message or UBX* error; inspections do not raise; reader ends, raises only under ERR_RAISE and only protocol errors) and proves "
+         "termination of the reader machine on all streams up to length 5.",
+         "3.8, 4/C08", "TLC trace validation of parse/inspect/reader events + TLC liveness (termination) of the reader machine"),
+ "C16": ("Exhaustive: TLC evaluates the documented grammar (spec/UbxGrammar.tla) on every entry of the GET/SET/POLL payload tables, the "
+         "message-ID table, the variant table and the configuration database exported from the working tree; the nominal instance of "
+         "every reachable (message, mode) is built and parsed by the real code and judged by TLC.",
+         "3.4, 4/C16", "TLC exhaustive evaluation of grammar predicates over the exported tables + nominal-instance replay"),
+ "C17": ("TLC evaluates the designed SETPOLL heuristic on the conforming frame of every SET/POLL table entry (design-level ambiguities "
+         "listed); every SET/POLL layout is generated by the real constructor in its true mode and parsed with the true mode and with "
+         "SETPOLL; TLC judges mode, identity and attributes and notes any drift of the implementation from the designed heuristic.",
+         "3.6, 4/C17", "TLC design-level evaluation over all SET/POLL definitions + TLC trace validation of SETPOLL parses"),
 }
 checks = []
 for p in props:
